@@ -2,6 +2,7 @@ import PercevalModel.SimProto
 import PercevalModel.Model.C04
 import PercevalModel.Model.C04Trim
 import PercevalModel.Model.C04Session
+import PercevalModel.Model.C04Generic
 
 open Lean PM PM.Proto PM.Fock PM.Dist PM.SimSpec PM.SimProto PM.C04
 
@@ -183,6 +184,26 @@ def handle (j : Json) : Json :=
         ("prunedEntries", toJson (((keptθ P c members).map fun (mb : PM.C04.Member) =>
             (memberDist eng c mb).length - (memberDistθ eng c (pThreshold P c members) mb).length).sum)),
         ("gap", ratToJson (trimGap eng P c members))]
+    | "c04gen" =>
+      -- superposed inputs: the code-shaped model of `_probs_svd_generic` (masked group amplitudes, interference)
+      -- next to the specification (conditioning of `probsSVD`)
+      let ⟨m, U⟩ ← matOfJson j
+      let members ← membersOfJson (← j.getObjVal? "members")
+      if members.any (fun p => p.2.any fun t => t.groups.any (·.length ≠ m)) then throw "bad group size"
+      if members.any (fun p => p.2.isEmpty) then throw "member without term"
+      if members.any (fun p => p.2.any fun t => (t.groups.map List.sum).sum ≠ svN p.2) then
+        throw "terms with different photon numbers"
+      let c ← cfgOfJson m (← j.getObjVal? "cfg")
+      let out := probsSvdGen U c (members.map fun (p : ℚ × List SimSpec.Term) => (⟨p.1, p.2⟩ : GMember))
+      let fullD := probsSVD U members
+      let sc := cond c
+      return Json.mkObj [
+        ("model", outToJson out),
+        ("spec", Json.mkObj [("results", distToJson (conditioned sc fullD)),
+                             ("phys", ratToJson (physPerf sc fullD)),
+                             ("logical", ratToJson (logicalPerf sc fullD)),
+                             ("retained", ratToJson (mass (retained sc fullD)))]),
+        ("mass", ratToJson (mass fullD))]
     | "session" =>
       -- a long-lived Simulator / Processor: every query is answered by the state machine (the walk over the sorted
       -- keys under the mask that is on the backend), and — next to it — by the stateless model for the selection in
